@@ -23,5 +23,8 @@ func writeGobFile(fsys fs.FileSystem, name string, v interface{}) error {
 	}
 	defer f.Close()
 	enc := gob.NewEncoder(f)
-	return enc.Encode(v)
+	if err := enc.Encode(v); err != nil {
+		return err
+	}
+	return f.Sync()
 }
